@@ -141,13 +141,19 @@ def judge(o, snaps, res_ok):
 def gen_case(rng):
     scn = P.gen_scenario(rng, small=rng.random() < 0.3)
     return scn, {"seed": rng.getrandbits(32), "faults": rng.random() < 0.4, "gate": rng.random() < 0.6,
-                 "first_run": rng.random() < 0.15}
+                 "first_run": rng.random() < 0.15, "wipe_default": rng.random() < 0.5,
+                 "uncompressed_then_compressed": rng.random() < 0.2}
 
 
 def run_case(rep, scn, case, sb, tag, rows):
     rng = random.Random(case["seed"])
     base = sb / tag
     found = False
+    scn.wipe_default = bool(case.get("wipe_default"))
+    if case.get("uncompressed_then_compressed"):
+        for r in scn.repos:
+            for c in r["version"]["codenames"].values():
+                c["compressions"] = ["bz2", ""]
     files1 = R.files_of(scn)
     oracles = [V.VisOracle(r, base) for r in scn.repos]
     if not case["first_run"]:
@@ -157,7 +163,11 @@ def run_case(rep, scn, case, sb, tag, rows):
     for o in oracles:
         o.snapshot_old()
     scn2 = P.Scenario([dict(r, version=P.gen_version(rng, serial=2, prev=r["version"])) for r in scn.repos],
-                      nthreads=scn.nthreads)
+                      nthreads=scn.nthreads, wipe_default=bool(case.get("wipe_default")))
+    if case.get("uncompressed_then_compressed"):
+        for r in scn2.repos:
+            for c in r["version"]["codenames"].values():
+                c["compressions"] = ["xz", "gz"]
     files2 = R.files_of(scn2)
     plan = {}
     if case["faults"]:
